@@ -22,7 +22,7 @@ func init() {
 			"field of both cost structs has an unsigned integer kind (the reflective check skips none); the broadcast calls SetNewGasConfig on every key of the container with the stored schedule. R4: every sender-side success path of a priced entry point " +
 			"passes a charge of the own cost (a GasRemaining value containing -cost, or the saturating helper applied to cost); plain GasProvided is stored only where the sender account is absent or a charge follows. Does NOT decide: the consumed amount as a number.",
 		Trusted: []string{"T-REG (spec/registry.json): cost field and per-byte fields per protocol name", "mapstructure.Decode fills the struct from the map", "check.ForZeroUintFields semantics (its field-kind filter is matched against the struct definitions)"},
-		Rules:   []func(*Ctx){c16r1, c16r2, c16r3, c16r4, c16r5},
+		Rules:   []func(*Ctx){c16r1, c16r2, c16r3, c16r4, c16r5, c16r6},
 	})
 }
 
@@ -257,6 +257,12 @@ func c16r1(c *Ctx) {
 			c.Fail(rule, "violation", FuncName(r.Ctor), sp.Name+": per-byte prices", c.P.Pos(r.Ctor.Pos()), "the table lists per-byte components but the function holds no BaseOperationCost")
 		}
 	}
+}
+
+// c16r6: what is forwarded to the destination is what remains after every charge (shared with C06-R3): gas captured before
+// a per-byte deduction and forwarded afterwards hands the deducted amount back — the component is not paid.
+func c16r6(c *Ctx) {
+	c.shareRule(c06r3, "C06-R3", "C16-R6", "forwarded gas is the remainder after all charges (a charge is not undone by forwarding a value captured earlier)", nil)
 }
 
 func c16r2(c *Ctx) {
@@ -624,16 +630,24 @@ func includesCost(e *Env, v ssa.Value, costTerm string, assumed map[*ssa.Phi]boo
 
 // subtractsCost: v = base - … - y - … where some subtrahend includes the cost.
 func subtractsCost(e *Env, v ssa.Value, costTerm string) bool {
+	return subtractsCostRec(e, v, costTerm, map[ssa.Value]bool{})
+}
+
+func subtractsCostRec(e *Env, v ssa.Value, costTerm string, seen map[ssa.Value]bool) bool {
+	if seen[v] {
+		return true // a value carried around a loop: decided by its other incoming values
+	}
+	seen[v] = true
 	switch x := v.(type) {
 	case *ssa.Convert:
-		return subtractsCost(e, x.X, costTerm)
+		return subtractsCostRec(e, x.X, costTerm, seen)
 	case *ssa.Parameter:
 		if a, pe := e.actual(x); a != nil {
-			return subtractsCost(pe, a, costTerm)
+			return subtractsCostRec(pe, a, costTerm, seen)
 		}
 	case *ssa.Phi:
 		for _, ed := range x.Edges {
-			if !subtractsCost(e, ed, costTerm) {
+			if !subtractsCostRec(e, ed, costTerm, seen) {
 				return false
 			}
 		}
@@ -641,12 +655,12 @@ func subtractsCost(e *Env, v ssa.Value, costTerm string) bool {
 	case *ssa.UnOp:
 		if x.Op == token.MUL {
 			if f := forwarded(x); f != nil {
-				return subtractsCost(e, f, costTerm)
+				return subtractsCostRec(e, f, costTerm, seen)
 			}
 		}
 	case *ssa.BinOp:
 		if x.Op == token.SUB {
-			return includesCost(e, x.Y, costTerm, map[*ssa.Phi]bool{}) || subtractsCost(e, x.X, costTerm)
+			return includesCost(e, x.Y, costTerm, map[*ssa.Phi]bool{}) || subtractsCostRec(e, x.X, costTerm, seen)
 		}
 	}
 	return false
